@@ -51,6 +51,10 @@ type TimedOpts struct {
 	// TxJitter: a new transaction reaches the pools one by one, each within one latency (gossip), instead of at one instant;
 	// a node that has asked its application for it is handed it (OnTransaction) when it arrives.
 	TxJitter bool
+	// TxAvoidGap/TxAvoidWin: a new transaction that would appear TxAvoidGap±TxAvoidWin after the latest proposal is
+	// dropped (the instant at which the backups' first timeouts race the proposal it triggers: the synchrony premise
+	// does not hold there; an arrival planned long ago can drift onto it when another one has triggered a block since)
+	TxAvoidGap, TxAvoidWin time.Duration
 	// LandOnSubscribePct: chance that a transaction reaches a node's pool while that node is registering its
 	// single-use subscription - after the library's last look at the pool, before the listener exists, so that no
 	// notification is sent for it (the others receive it by gossip within one latency).
@@ -501,6 +505,10 @@ func (t *Timed) step() bool {
 			}
 		case "tx":
 			it := *s // (the plan may grow below)
+			if d := w.Clock.Sub(w.Cfg.Epoch) - t.lastProposal - t.O.TxAvoidGap; !it.Split && t.O.TxAvoidGap > 0 && t.proposals > 0 && d > -t.O.TxAvoidWin && d < t.O.TxAvoidWin {
+				w.Stat("tx_arrival_skipped_at_timeout_boundary")
+				break
+			}
 			if !it.Split {
 				w.Universe = append(w.Universe, it.Tx)
 				w.Stat("tx_arrival")
